@@ -199,6 +199,37 @@ def fit_terminal(c, sides, W, Hh):
     return left + W + right <= env.CFG.cols and c["y0"] + top + Hh + bottom <= env.CFG.rows
 
 
+
+HELD_NOPAD = []  # a "no padding" instance obtained once per process and kept (as an application would)
+
+
+def rejected_then_decoy(spec, cols, rows, rec):
+    """(1) constructions the documentation rejects must not leave anything behind: a no-padding instance obtained
+    earlier still pads nothing.  (2) a short-lived padding of another shape is created, resolved and dropped just
+    before the real one is created (CPython tends to give the real one the same address)."""
+    from term_image.geometry import Size
+
+    if not HELD_NOPAD:
+        HELD_NOPAD.append(P.ExactPadding())
+    for bad in ((2, 0, -2, 0), (0, 1, 0, -1), (-1, 0, 1, 0), (0, -3, 0, 3)):
+        try:
+            P.ExactPadding(*bad)
+        except ValueError:
+            pass
+        else:
+            raise Violation(f"ExactPadding{bad} was accepted", {"clause": "ctor_validation"})
+    held = HELD_NOPAD[0]
+    if (held.left, held.top, held.right, held.bottom) != (0, 0, 0, 0) or tuple(held.get_padded_size(Size(3, 2))) != (3, 2) \
+            or held.pad("ab\ncd", Size(2, 2)) != "ab\ncd":
+        raise Violation(f"a no-padding ExactPadding obtained earlier now reads {held!r} / pads 3x2 to "
+                        f"{tuple(held.get_padded_size(Size(3, 2)))} after rejected constructions", {"clause": "nopad_corrupted"})
+    if spec[0] == "aligned":
+        decoy = P.AlignedPadding(-1 if spec[1] != -1 else -2, -2 if spec[2] != -2 else -1, P.HAlign(spec[3]), P.VAlign(spec[4]), "#")
+        decoy.resolve(Size(cols, rows))
+        decoy.get_padded_size(Size(1, 1)) if not decoy.relative else None
+        del decoy
+        rec.label("decoy_padding")
+
 def check_pad(c, rec):
     env.reset()
     inn = c["inner"]
@@ -213,6 +244,7 @@ def check_pad(c, rec):
     env.apply(cols=cols, rows=rows)
     bare, profile, image = make_inner(inn)
     fill = c["fill"]
+    rejected_then_decoy(spec, cols, rows, rec)
     padding = build_padding(spec, fill)
     size = G.Size(W, Hh)
     sides = ref_sides(spec, W, Hh, cols, rows)
@@ -365,6 +397,7 @@ def check_api(c, rec):
     if left + W + right > cols or top + Hh + bottom > rows:
         rec.label("nofit")
         return
+    rejected_then_decoy(spec, cols, rows, rec)
     padding = build_padding(spec, fill)
     api = c["api"]
     what = f"{api} padding={padding!r} render {W}x{Hh} term {cols}x{rows}"
